@@ -31,7 +31,12 @@ class BoomKey(KeyError):
     pass
 
 
-KINDS = (Boom, BoomOS, BoomTimeout, BoomKey)
+class BoomCode(RuntimeError):             # carries a single argument that is not text, as KeyError(404) or MyError(code) do
+    def __init__(self, *args):
+        super().__init__(404)
+
+
+KINDS = (Boom, BoomOS, BoomTimeout, BoomKey, BoomCode)
 
 
 def _ok(v):
